@@ -468,12 +468,19 @@ func (c *Ctx) isCountedLoop(f *ast.ForStmt) bool {
 	if o == nil {
 		o = c.Info.Uses[id]
 	}
-	be, ok := unparen(f.Cond).(*ast.BinaryExpr)
-	if !ok {
-		return false
+	// further conjuncts only end the loop earlier: one conjunct bounding the variable suffices
+	var be *ast.BinaryExpr
+	for _, cj := range conjuncts(f.Cond) {
+		b, ok := unparen(cj).(*ast.BinaryExpr)
+		if !ok {
+			continue
+		}
+		if cid, ok := unparen(b.X).(*ast.Ident); ok && c.Obj(cid) == o {
+			be = b
+			break
+		}
 	}
-	cid, ok := unparen(be.X).(*ast.Ident)
-	if !ok || c.Obj(cid) != o {
+	if be == nil {
 		return false
 	}
 	up := false
